@@ -78,14 +78,20 @@ Definition list_eqb {A} (eqb : A -> A -> bool) : list A -> list A -> bool :=
 (* Python's == on the scalars the generator uses: bool/int are numerically equal, +0.0 == -0.0, NaN differs
    from everything (including itself); enum members, strings, None compare structurally. *)
 Definition canon_nan : N := 9221120237041090560.
+(* the integral floats the generator uses: +-0.0, 1.0, 2.0 (as IEEE bit patterns) *)
+Definition float_int (x : N) : option Z :=
+  if N.eqb x 0 || N.eqb x 9223372036854775808 then Some 0%Z
+  else if N.eqb x 4607182418800017408 then Some 1%Z
+  else if N.eqb x 4611686018427387904 then Some 2%Z
+  else None.
 Definition seq_py (a b : scalar) : bool :=
   match a, b with
   | SBool x, SInt y | SInt y, SBool x => Z.eqb (if x then 1 else 0) y
   | SFloat x, SFloat y =>
     if N.eqb x canon_nan then false
     else N.eqb x y || ((N.eqb x 0 || N.eqb x 9223372036854775808) && (N.eqb y 0 || N.eqb y 9223372036854775808))
-  | SFloat x, SInt y | SInt y, SFloat x => (N.eqb x 0 || N.eqb x 9223372036854775808) && Z.eqb y 0
-  | SFloat x, SBool y | SBool y, SFloat x => (N.eqb x 0 || N.eqb x 9223372036854775808) && negb y
+  | SFloat x, SInt y | SInt y, SFloat x => match float_int x with Some z => Z.eqb z y | None => false end
+  | SFloat x, SBool y | SBool y, SFloat x => match float_int x with Some z => Z.eqb z (if y then 1 else 0) | None => false end
   | _, _ => scalar_eqb a b
   end.
 
